@@ -940,3 +940,189 @@ def c15(case):
     finally:
         c15_reset()
     return {"events": events}
+
+
+# ---------------------------------------------------------------------------
+# C18: containers
+
+C18_TRS = {1: "154n97w14", 2: "154n97w15", 3: "155n97w14", 4: "XXXz97w14", 5: "154n97wXX", 6: "154n97w__",
+           7: "___z97wXX", 8: "XXXzXXXzXX"}
+C18_DESC = {(1, 1): "NE/4", (2, 1): "E/2NE/4, W/2NE/4", (1, 0): "NE/4", (3, 2): "SW/4", (1, 2): "SW/4 "}
+
+
+def _c18_build(lst, container):
+    import pytrs
+    made = {}
+    objs = []
+    for e in lst:
+        key = e["inst"]
+        if key not in made:
+            if container == "TRSList":
+                made[key] = pytrs.TRS(C18_TRS[e["trs"]])
+            else:
+                desc = C18_DESC.get((e["pp"], e["lq"]), "NE/4")
+                made[key] = pytrs.Tract(desc, trs=C18_TRS[e["trs"]], parse_qq=bool(e["parsed"]))
+        objs.append(made[key])
+    cls = pytrs.TRSList if container == "TRSList" else pytrs.TractList
+    return cls(objs), objs
+
+
+def _positions(result, objs, used=None):
+    """For every element of result: the position (1-based) of the FIRST occurrence of that very object in objs
+    (0 when it is not one of them).  Repeated instances are indistinguishable, so they share a representative;
+    the trace specification maps its expected positions through the same representative function."""
+    out = []
+    for x in result:
+        p = 0
+        for j, o in enumerate(objs):
+            if o is x:
+                p = j + 1
+                break
+        out.append(p)
+    return out
+
+
+def c18_filter(case):
+    import pytrs
+    a = case["args"]
+    try:
+        lst, objs = _c18_build(a["lst"], a["container"])
+        op = a["op"]
+        target = lst
+        if a["container"] == "PLSSDesc":
+            target = pytrs.PLSSDesc("T1N-R1W Sec 1: NE/4")
+            target.tracts = lst
+        if op["name"] == "filter":
+            fn = {"g1_is_x": lambda t: t.twp == "154n", "parsed": lambda t: bool(getattr(t, "parse_complete", False)),
+                  "all": lambda t: True, "none": lambda t: False}[op["pred"]]
+            res = target.filter(fn, drop=op["drop"])
+        elif op["name"] == "filter_errors":
+            c = op["crit"]
+            res = target.filter_errors(twp=c["twp"], rge=c["rge"], sec=c["sec"], undef=c["undef"], drop=op["drop"])
+        else:
+            m = op["method"]
+            if a.get("use_default"):
+                m = "default"
+            res = target.filter_duplicates(method=m, drop=op["drop"])
+        after = list(target.tracts) if a["container"] == "PLSSDesc" else list(lst)
+        return {"exc": "none", "sel": _positions(res, objs), "rest": _positions(after, objs),
+                "type_ok": type(res).__name__ in ("TractList", "TRSList")}
+    except Exception as e:  # noqa
+        return _exc(e)
+
+
+def c18_group(case):
+    import pytrs
+    a = case["args"]
+    try:
+        lst, objs = _c18_build(a["lst"], a["container"])
+        attrs = [{"g1": "twp", "g2": "sec"}[x] for x in a["attrs"]]
+        arg = attrs if (len(attrs) > 1 or a.get("as_list")) else attrs[0]
+        cls = type(lst)
+        if a["nested"]:
+            dct = lst.group_by_nested(arg)
+        else:
+            dct = lst.group_by(arg)
+        val = {"154n": "x", "155n": "y", "XXXz": "z", "___z": "w", "14": "p", "15": "q", "XX": "r", "__": "s"}
+        groups = []
+
+        def walk(d, path):
+            for k, v in d.items():
+                if isinstance(v, dict):
+                    walk(v, path + [k])
+                else:
+                    key = list(k) if isinstance(k, tuple) else path + [k]
+                    groups.append({"key": [val.get(x, "?" + str(x)) for x in key], "members": list(v)})
+        walk(dct, [])
+        unpacked = cls.unpack_group(dct)
+        for g in groups:
+            g["members"] = _positions(g["members"], objs)
+        return {"exc": "none", "groups": groups, "unpacked": _positions(unpacked, objs)}
+    except Exception as e:  # noqa
+        return _exc(e)
+
+
+def _c18_item(kind):
+    import pytrs
+    if kind == "tract":
+        return pytrs.Tract("NE/4", trs="154n97w14"), ["154n97w14"]
+    if kind == "trs":
+        return pytrs.TRS("155n97w01"), ["155n97w01"]
+    if kind == "str":
+        return "156n97w02", ["156n97w02"]
+    if kind == "int":
+        return 5, None
+    if kind == "none":
+        return None, None
+    if kind == "float":
+        return 1.5, None
+    if kind == "plssdesc":
+        return pytrs.PLSSDesc("T157N-R97W Sec 3: NE/4, Sec 4: W/2"), ["157n97w03", "157n97w04"]
+    if kind == "list_of_tracts":
+        return [pytrs.Tract("a", trs="158n97w05"), pytrs.Tract("b", trs="158n97w06")], ["158n97w05", "158n97w06"]
+    if kind == "tractlist":
+        return pytrs.TractList([pytrs.Tract("a", trs="159n97w07"), pytrs.Tract("b", trs="159n97w08")]), ["159n97w07", "159n97w08"]
+    if kind == "trslist":
+        return pytrs.TRSList(["160n97w09", "160n97w10"]), ["160n97w09", "160n97w10"]
+    if kind == "dict":
+        return {"a": 1}, None
+    raise ValueError(kind)
+
+
+def c18_entry(case):
+    import pytrs
+    a = case["args"]
+    target, path, kinds = a["target"], a["path"], a["items"]
+    cls = pytrs.TractList if target == "TractList" else pytrs.TRSList
+    elem_cls = pytrs.Tract if target == "TractList" else pytrs.TRS
+    try:
+        base_items = [pytrs.Tract("z", trs="150n90w01"), pytrs.Tract("y", trs="150n90w02")]
+        base_trs = ["150n90w01", "150n90w02"]
+        items, want = [], []
+        for k in kinds:
+            it, trs = _c18_item(k)
+            items.append(it)
+            want += trs or ["?"]
+        itb = a.get("iterable", "list")
+        if itb == "tuple":
+            arg = tuple(items)
+        elif itb == "generator":
+            arg = (x for x in items)
+        else:
+            arg = list(items)
+        if path == "ctor":
+            out = cls(arg)
+            expect = want
+        elif path == "extend":
+            out = cls(base_items)
+            out.extend(arg)
+            expect = base_trs + want
+        elif path == "iadd":
+            out = cls(base_items)
+            out += arg
+            expect = base_trs + want
+        elif path == "add":
+            out = cls(base_items) + arg
+            expect = base_trs + want
+        elif path == "append":
+            out = cls(base_items)
+            for it in items:
+                out.append(it)
+            expect = base_trs + want
+        elif path == "insert":
+            out = cls(base_items)
+            for it in items:
+                out.insert(1, it)
+            expect = [base_trs[0]] + list(reversed(want)) + [base_trs[1]]
+        elif path == "setitem":
+            out = cls(base_items)
+            out[1] = items[0]
+            expect = [base_trs[0]] + want[:1]
+        else:
+            out = cls.from_multiple(*items)
+            expect = want
+        got = [getattr(x, "trs", None) for x in out]
+        return {"exc": "none", "len": len(out), "types_ok": all(isinstance(x, elem_cls) for x in out),
+                "order_ok": got == expect, "got": got}
+    except Exception as e:  # noqa
+        return _exc(e)
